@@ -95,6 +95,8 @@ func checkC15(p *load.Program, r *kit.Report) {
 	r.Rule("LOCK-BALANCE", "every explicit Unlock/RUnlock in the two packages is executed with that lock held on every path reaching it (unlock of an unlocked mutex is a fatal error no recover can contain)", 60)
 	r.Rule("NO-REACQUIRE", "no function of the two packages calls, while it holds a sync.Mutex/RWMutex on every path, a callee that takes the same lock of the same object (the handler would block for ever with the lock held: Run never returns and every other user of the object hangs)", 40)
 	checkNoReacquire(p, r, "NO-REACQUIRE", nil)
+	r.Rule("NO-READ-UNDER-NODE-LOCK", "no message handler (or what it calls in the node package) reads from the peer while it holds the node mutex: a stalled payload cannot wedge Stop, run and the node manager", 8)
+	checkNoPeerReadUnderNodeLock(p, r, "NO-READ-UNDER-NODE-LOCK")
 	r.Rule("STOP-ORDER", "BitcoinNode.Stop closes the connection before the outgoing message channel: Stop (and with it Run) cannot block behind a sender parked on the full queue", 1)
 	checkStopOrder(p, r, "STOP-ORDER")
 	r.Rule("CLOSE-BEFORE-WAIT", "the waiting buffer that feeds the alternate header handler is closed before that handler's thread is waited for (otherwise a connection that ends inside a headers message leaves the handler, and with it Run, blocked for ever)", 2)
